@@ -4,7 +4,10 @@ import Tmv.Model.Index
 the model keeps the tuple itself (`BKey`) and reads "rows with prefix `Append(nil, k)`" as "rows
 whose first component is `k`", "prefix `Append(nil, k, v)`" as "event rows with components
 `k`, `v`" (a string encoding never is a prefix of the encoding of a non-negative int64, whose
-first byte has the high bit set).  orderedcode itself is trusted, not modelled. -/
+first byte has the high bit set).  orderedcode itself is trusted, not modelled.
+HYPOTHESIS of every block-index theorem (explicit): `orderedcode.Append` is an injective,
+prefix-free, order-preserving encoding of typed tuples, so that a database of encoded keys with
+prefix iteration behaves as this database of tuples with component-wise selection. -/
 namespace Tmv.BlockIndex
 open Tmv.Query Tmv.Index
 
